@@ -92,7 +92,7 @@ def main():
         }],
         "checks": checks,
         "not_applicable": na,
-        "notes": "Genuine defects found and repaired in /repo as 'fix:' commits are listed in /verif/known-findings.jsonl (kind=fixed; they suppress nothing) and their minimised cases are replayed by every run from /verif/regress/<ID>/. See DESIGN.md.",
+        "notes": "Genuine defects found and repaired in /repo as 'fix:' commits are listed in /verif/known-findings.txt (kind=fixed; they suppress nothing) and their minimised cases are replayed by every run from /verif/regress/<ID>/. See DESIGN.md.",
     }
     json.dump(m, open("/verif/MANIFEST.json", "w"), indent=1)
     print("wrote MANIFEST.json with", len(checks), "checks;", len(na), "not applicable")
